@@ -299,6 +299,19 @@ impl Database {
             );
         }
 
+        // Refuse before removing anything: a held region found half-way through would leave
+        // the earlier removals in place although the call reports an error.
+        // Expected 3 per region: this vector, regions.index_to_region and layout.start_to_region.
+        for region in &regions_to_remove {
+            let ref_count = std::sync::Arc::strong_count(region.arc());
+            if ref_count > 3 {
+                return Err(Error::RegionStillReferenced {
+                    id: region.meta().id().to_string(),
+                    ref_count: ref_count - 1,
+                });
+            }
+        }
+
         for region in regions_to_remove {
             let ref_count = std::sync::Arc::strong_count(region.arc());
             debug!(
